@@ -37,13 +37,14 @@ MODELLED = {"insert_pass", "reorder_stmts", "cut_loop", "join_loops", "specializ
             "shift_loop", "unroll_loop", "divide_loop", "reorder_loops", "mult_loops", "lift_scope",
             # storage shapes
             "lift_alloc", "sink_alloc", "delete_buffer", "delete_pass", "bind_expr",
-            "expand_dim", "divide_dim", "mult_dim", "resize_dim",
+            "expand_dim", "divide_dim", "mult_dim", "resize_dim", "rearrange_dim",
             # data shapes
             "split_write", "merge_writes", "fold_into_reduce", "lift_reduce_constant", "inline_assign",
-            "rewrite_expr",
+            "rewrite_expr", "commute_expr", "left_reassociate_expr", "divide_with_recompute",
+            "stage_mem", "reuse_buffer",
             # calls
             "extract_subproc"}
-# modelled shapes WITHOUT a well-formedness theorem yet: rearrange_dim, unroll_buffer, inline
+# modelled shapes WITHOUT a well-formedness theorem yet: unroll_buffer, inline
 
 _DRV = None
 
@@ -78,7 +79,13 @@ def params_of_att(p, att):
         k = a.get("n", 1)
     elif op == "extract_subproc":
         k = a.get("n", 1)
-    elif op in ("bind_expr", "rewrite_expr"):
+    elif op == "divide_with_recompute":
+        k = a["outer_stride"]
+    elif op == "stage_mem":
+        k, flag = 1, bool(a["accum"])
+    elif op == "reuse_buffer":
+        k = sum((2 * i + (st == "orelse") + 1) * 256 ** n for n, (st, i) in enumerate(a["other"]))
+    elif op in ("bind_expr", "rewrite_expr", "commute_expr", "left_reassociate_expr"):
         path = [st for st in path if st[0] in ("body", "orelse")]
     elif op in ("divide_dim", "resize_dim"):
         if op == "resize_dim" and a.get("fold"):
@@ -86,6 +93,8 @@ def params_of_att(p, att):
         k = a["dim"]
     elif op == "mult_dim":
         k = 16 * a["hi"] + a["lo"]
+    elif op == "rearrange_dim":
+        k = sum(q * 16 ** i for i, q in enumerate(a["perm"]))
     elif op == "fission":
         if a.get("n_lifts", 1) != 1:
             return None
